@@ -464,3 +464,53 @@ def truth_rows(path):
         except KeyError as ex:
             raise AnalysisError(f"returned predicate mentions an atom that cannot be evaluated: {ex}")
     return rows
+
+
+# ----------------------------------------------------------------------------------------------
+# partitions, recursion summaries, small integer reasoning
+# ----------------------------------------------------------------------------------------------
+PVAR = ("part", "P")
+
+
+def P_value(kind="cond", cls=""):
+    return ElemV(PVAR, "partition", kind, cls)
+
+
+def layer_fam(idx_lin, pvar=PVAR):
+    return ("members", ("at", pvar, ("lin", idx_lin)))
+
+
+LEN_P = F.lin_term(("len", PVAR))
+LAST = F.lin_add(LEN_P, F.lin_const(-1))
+K = F.lin_term("k")
+
+
+def reccall_summary(I, fi, args, kwargs, node):
+    """Summary used when an operator's `_inference` is analysed: the recursive core has its own obligations."""
+    I.log("reccall", node, func=fi.qualname, args=tuple(args), kwargs=dict(kwargs), snap=I.snapshot_args(args, kwargs))
+    return Sym(("rec0", fi.qualname), "bool")
+
+
+def lin_facts_hold(path, n, pvar=PVAR):
+    """Do the path's decided linear predicates hold when len(P) = n?  (only predicates that mention nothing but
+    len(P) are interpreted; others are ignored)"""
+    term = ("len", pvar)
+    for k, v in path.decisions:
+        if k[0] == "cmp" and k[1] in ("==", "<") and isinstance(k[2], tuple) and k[2][0] == "lin" and k[3] == ("c", 0):
+            lin = k[2][1]
+            if all(t == term for t, _ in lin[0]):
+                val = sum(c * n for t, c in lin[0]) + lin[1]
+                holds = (val == 0) if k[1] == "==" else (val < 0)
+                if holds != v:
+                    return False
+        elif k == ("empty", pvar):
+            if (n == 0) != v:
+                return False
+    return True
+
+
+def eval_lin_n(lin, n, pvar=PVAR):
+    term = ("len", pvar)
+    if not all(t == term for t, _ in lin[0]):
+        return None
+    return sum(c * n for t, c in lin[0]) + lin[1]
